@@ -47,10 +47,10 @@ def binType (op : BOp) (l r : Ty) : Option Ty :=
   | .mod => if l == .int && r == .int then some .int else none
 
 section
-variable {F : Type} (ops : FOps F) (reMatch : String → String → Option Bool)
+variable {F : Type} (ops : FOps F) (reMatch : Bytes → Bytes → Option Bool)
 
 /-- ordering / equality of two values of comparable types; int/float mixes compare as floats. -/
-def refCmp (ci : Int → Int → Bool) (cf : F → F → Bool) (cs : String → String → Bool) (cb : Option (Bool → Bool → Bool)) :
+def refCmp (ci : Int → Int → Bool) (cf : F → F → Bool) (cs : Bytes → Bytes → Bool) (cb : Option (Bool → Bool → Bool)) :
     Value F → Value F → Outcome (Value F)
   | .int a, .int b => .ok (.bool (ci a b))
   | .dur a, .dur b => .ok (.bool (ci a b))
@@ -166,20 +166,18 @@ def refCall (fn : String) (args : List (Value F)) (h : Hist F) : Outcome (Value 
     match args with
     | [v] => (.ok (.bool (decide (v.ty ≠ .missing))), h)
     | _ => (.err, h)
-  else if fn = "strSubstring" then
-    -- the bytes [start, stop) of the string; indexes outside 0 ≤ start ≤ stop ≤ length are an error
-    match args with
-    | [.str s, .int start, .int stop] =>
-      if 0 ≤ start ∧ start ≤ stop ∧ stop ≤ (s.utf8ByteSize : Int) then
-        (match ctx.call fn args with | some (.ok v) => (.ok v, h) | _ => (.err, h))
+  else
+    -- deterministic stateless builtins by their documented meaning (`Lib.builtin`); transcendental math, regex,
+    -- time-zone, formatting/parsing of floats and durations: the library's value (carried in the op line)
+    match Lib.builtin ctx.ops fn args with
+    | some (some v) => (.ok v, h)
+    | some none => (.err, h)
+    | none =>
+      if Lib.oracleFns.contains fn then
+        match ctx.call fn args with
+        | some (.ok v) => (.ok v, h)
+        | _ => (.err, h)
       else (.err, h)
-    | _ => (.err, h)
-  else if ctx.sigs.any (fun s => s.name == fn) then
-    -- library function: its value is the library's (carried in the op line)
-    match ctx.call fn args with
-    | some (.ok v) => (.ok v, h)
-    | _ => (.err, h)
-  else (.err, h)
 
 variable (σ : Scope F)
 
